@@ -43,9 +43,9 @@ def layer_oracle(nodes, edges, arch_def, subj, objs, verb, imp, exc, anything=Fa
     return other and not any(access(M) for M in objs)
 
 
-def gen_case(rng, forest=False):
-    large = rng.random() < 0.15        # beyond hand-written sizes: up to 40 modules, 6 levels, 6 layers, 4 object layers
-    pool = rules.LARGE_POOL if large else rng.choice((rules.COLLISION_FREE, rules.ADVERSARIAL))
+def gen_case(rng, forest=False, tricky=False):
+    large = rng.random() < 0.15 and not tricky       # beyond hand-written sizes: up to 40 modules, 6 levels, 6 layers, 4 object layers
+    pool = rules.LARGE_POOL if large else rules.SORT_TRICKY if tricky else rng.choice((rules.COLLISION_FREE, rules.ADVERSARIAL))
     nodes = rules.rand_tree(rng, pool, max_nodes=rng.choice([25, 40]), max_depth=6) if large else rules.rand_tree(rng, pool, max_nodes=rng.choice([6, 9, 13]))
     if forest:
         # a second top-level tree (as an external library kept in the graph): its root is a listed module without any dot
@@ -111,7 +111,7 @@ def _job(args):
     out = dict(n=0, nontrivial=0, stats={}, violations=[], disagreements=[], pairs=[], samples=[])
     done = 0
     while done < n:
-        c = gen_case(rng, forest=(mode == "direct" and rng.random() < 0.35))
+        c = gen_case(rng, forest=(mode == "direct" and rng.random() < 0.35), tricky=(mode == "direct" and rng.random() < 0.2))
         if c is None:
             continue
         c["obj_as_str"] = rng.random() < 0.5
